@@ -65,8 +65,43 @@ def discharge(seen):
         else:
             assumed.append('x / %d is modelled as the exact rational (IEEE rounding of the quotient assumed '
                            'irrelevant: it is only used as a timer delay)' % c)
+    # digit-run abstraction (int(str(x)) = x ; str(x) == str(y) <=> x == y for equal digit counts).
+    # Direct statement for n <= 5 digits; for n <= 20 the three facts the induction needs:
+    #   L1_k: (x div 10^k) div 10 == x div 10^(k+1)      (so digit_k(x) = A_k mod 10 with A_{k+1} = A_k div 10)
+    #   L2  : a == 10*(a div 10) + a mod 10, 0 <= a mod 10 < 10
+    #   L3_n: positional representation with n digits in 0..9 is unique (linear)
+    # Unrolling A_k = 10*A_{k+1} + digit_k from A_0 = x to A_n = 0 gives x = sum digit_k 10^k; L3 gives injectivity.
+    xi, yi = z3.Int('xi'), z3.Int('yi')
+    dig = lambda v, k: (v / (10 ** k)) % 10  # noqa: E731
+    for nd in range(1, 6):
+        n += 1
+        lo, hi = (0 if nd == 1 else 10 ** (nd - 1)), 10 ** nd
+        tot = sum(dig(xi, k) * (10 ** k) for k in range(nd))
+        same = z3.And(*[dig(xi, k) == dig(yi, k) for k in range(nd)])
+        r = _prove(z3.And(xi >= lo, xi < hi, yi >= lo, yi < hi, z3.Or(tot != xi, z3.And(same, xi != yi))))
+        if r != 'unsat':
+            failed.append(('digits-direct', nd, r))
+    for k in range(1, 20):
+        n += 1
+        r = _prove(z3.And(xi >= 0, xi < 10 ** 20, (xi / (10 ** k)) / 10 != xi / (10 ** (k + 1))))
+        if r != 'unsat':
+            failed.append(('digits-L1', k, r))
+    n += 1
+    r = _prove(z3.And(xi >= 0, z3.Or(xi != 10 * (xi / 10) + xi % 10, xi % 10 < 0, xi % 10 >= 10)))
+    if r != 'unsat':
+        failed.append(('digits-L2', 0, r))
+    for nd in (1, 2, 3, 5, 10, 20):
+        n += 1
+        ds = [z3.Int('d%d' % k) for k in range(nd)]
+        es = [z3.Int('e%d' % k) for k in range(nd)]
+        rngs = [z3.And(v >= 0, v <= 9) for v in ds + es]
+        r = _prove(z3.And(*(rngs + [sum(d * 10 ** k for k, d in enumerate(ds)) == sum(e * 10 ** k for k, e in enumerate(es)),
+                                    z3.Or(*[d != e for d, e in zip(ds, es)])])))
+        if r != 'unsat':
+            failed.append(('digits-L3', nd, r))
     return {'ok': not failed, 'discharged': n, 'failed': failed, 'assumed': assumed,
             'solver_s': round(time.time() - t0, 2),
             'statements': ['(x & K) = sum over runs (lo,w) of set bits of K of ((x div 2^lo) mod 2^w)*2^lo, x in [0,2^64)',
                            '(x | K) = x + K - (x & K)', '(x ^ K) = x + K - 2(x & K)',
-                           'fp.to_sbv(RTZ, x /RNE c) = x div c and ceil form, x in [0,65535], c a power of two']}
+                           'fp.to_sbv(RTZ, x /RNE c) = x div c and ceil form, x in [0,65535], c a power of two',
+                           'decimal digits: direct (n<=5) sum_k digit_k(x)*10^k = x and equal digits => x = y; induction facts L1_k, L2, L3_n for n<=20 (int(str(x)) = x; str(x)=str(y) iff x=y at equal digit count)']}
